@@ -705,7 +705,11 @@ def k4(ck: Check) -> None:
         raise AnalysisError("anchor vanished: avoid/no-avoid split of run_simulation_minification")
     br = top[0]
     pol_avoid = isinstance(br.test, ast.UnaryOp)
-    avoid_body, noavoid_body = (br.body, br.orelse) if pol_avoid else (br.orelse, br.body)
+    body_, orelse_ = br.body, br.orelse
+    rest_ = f.node.body[f.node.body.index(br) + 1:]
+    if not orelse_ and body_ and isinstance(body_[-1], (ast.Return, ast.Raise)):
+        orelse_ = rest_          # early-return style: the statements after the `if` are the other branch
+    avoid_body, noavoid_body = (body_, orelse_) if pol_avoid else (orelse_, body_)
     # ---- avoid branch
     loop = next((s for s in avoid_body if isinstance(s, ast.For)), None)
     if loop is None:
@@ -865,6 +869,22 @@ def k5(ck: Check) -> None:
 
 
 # ------------------------------------------------------------------------------------------ K6
+def _fresh_copy_of(e: ast.AST, rs: str) -> bool:
+    """`e` builds a new dict that starts from the entries of `rs` (so that changing it leaves `rs` alone)."""
+    t = text(e)
+    if t in (f"{rs}.copy()", f"dict({rs})", f"copy({rs})", f"copy.copy({rs})", f"deepcopy({rs})", f"copy.deepcopy({rs})"):
+        return True
+    if isinstance(e, ast.Call) and text(e.func) == "dict" and e.args and text(e.args[0]) == rs:
+        return True
+    if isinstance(e, ast.BinOp) and isinstance(e.op, ast.BitOr) and text(e.left) == rs:
+        return True
+    if isinstance(e, ast.Dict) and e.keys and e.keys[0] is None and text(e.values[0]) == rs:
+        return True
+    if isinstance(e, ast.DictComp) and len(e.generators) == 1 and text(e.generators[0].iter) in (f"{rs}.items()", rs):
+        return True
+    return False
+
+
 def k6(ck: Check) -> None:
     fm = ck.prog.fm(CAND_MOD, "asp_greedy_retained_set_optimization")
     f = fm.f
@@ -910,7 +930,7 @@ def k6(ck: Check) -> None:
         # the flipped copy differs from the retained set in exactly the flipped variable
         if isinstance(rs2, ast.Name):
             sd = fm.single_def(rs2.id, d)
-            if not (sd and text(sd[1]) == f"{rs}.copy()"):
+            if not (sd and _fresh_copy_of(sd[1], rs)):
                 probs.append("trial retained set is not a copy of the current one")
     ck.ob("K6", fm, f.node, not probs, "; ".join(probs) if probs else
           "trial accepted only if strictly smaller than the limit it was enumerated with; pair replaced together", key="greedy accept")
